@@ -434,6 +434,8 @@ def _r3(ctx):
                 why = 'row.label=%r col.label=%r' % (rl, cl)
             if ok:
                 def marker_group(v):
+                    if isinstance(v, Atom) and v.op == 'took-part' and _group_of(v.args[0]):
+                        return _group_of(v.args[0])[1]      # the marker groups can only hold '$' (C19.R1 / R7)
                     if isinstance(v, Atom) and v.op == 'eq':
                         for a, b in (v.args, tuple(reversed(v.args))):
                             gg = _group_of(a)
